@@ -19,6 +19,8 @@ enum Op {
     Rem { gpa: u64, size: u64, uva: u64 },
     /// SET_VRING_ADDR with (desc, avail, used) user addresses
     Probe { desc: u64, avail: u64, used: u64 },
+    /// RESET_OWNER + SET_OWNER + renegotiation: table and translations stay as they are
+    ResetOwner,
 }
 
 pub fn def() -> PropDef {
@@ -28,7 +30,7 @@ pub fn def() -> PropDef {
         quick_runs: 12000,
         thorough_runs: 1_000_000,
         level: "exploration",
-        rule: "a live daemon driven by the real Frontend (REPLY_ACK + NEED_REPLY) through a history of 1..10 of {SET_MEM_TABLE with 1..=8 regions, ADD_MEM_REG, REM_MEM_REG of an existing / absent / size-mismatched region, SET_VRING_ADDR probe}; geometry from the tape: 1..64 pages, non-zero page-aligned mmap offsets, guest ranges on a small lattice so that adjacent, overlapping, duplicate and unordered layouts occur, synthetic user addresses anywhere in 64-bit space; faults: an eventfd instead of a mappable file (mmap fails by a real input); after a failed update the connection is re-established (the daemon stops serving on a failed request) and the history continues; oracle: reference table (sorted map + translation list) vs the memory handle passed to update_memory, bytes written through the memfd read back through GuestMemory and vice versa at region starts/ends/gaps, queue addresses sampled inside handle_event after a probe; non-trivial = history has >= 2 steps",
+        rule: "a live daemon driven by the real Frontend (REPLY_ACK + NEED_REPLY) through a history of 1..10 of {SET_MEM_TABLE with 1..=8 regions, ADD_MEM_REG, REM_MEM_REG of an existing / absent / size-mismatched region, SET_VRING_ADDR probe, RESET_OWNER + SET_OWNER + renegotiation (table and translations stay)}; geometry from the tape: 1..64 pages, non-zero page-aligned mmap offsets, guest ranges on a small lattice so that adjacent, overlapping, duplicate and unordered layouts occur, synthetic user addresses anywhere in 64-bit space; faults: an eventfd instead of a mappable file (mmap fails by a real input); after a failed update the connection is re-established (the daemon stops serving on a failed request) and the history continues; oracle: reference table (sorted map + translation list) vs the memory handle passed to update_memory, bytes written through the memfd read back through GuestMemory and vice versa at region starts/ends/gaps, queue addresses sampled inside handle_event after a probe; non-trivial = history has >= 2 steps",
         assumptions: ASSUME,
         real: REAL_D,
         stubs: STUB_D,
@@ -109,7 +111,7 @@ fn run_v<V: VringT<GM<()>> + Clone + Send + Sync + 'static>(sim: &Sim, _cfg: &Ru
         let mut known: Vec<GRegion> = Vec::new();
         let mut k = 0u64;
         for i in 0..n {
-            let c = if i == 0 { 0 } else { t.draw(8) };
+            let c = if i == 0 { 0 } else { t.draw(9) };
             match c {
                 0 | 1 => {
                     let m = match t.draw(4) {
@@ -132,6 +134,7 @@ fn run_v<V: VringT<GM<()>> + Clone + Send + Sync + 'static>(sim: &Sim, _cfg: &Ru
                     known.push(r.clone());
                     ops.push(Op::Add(r));
                 }
+                8 => ops.push(Op::ResetOwner),
                 4 => {
                     if known.is_empty() || t.chance(1, 4) {
                         ops.push(Op::Rem {
@@ -271,6 +274,20 @@ fn run_v<V: VringT<GM<()>> + Clone + Send + Sync + 'static>(sim: &Sim, _cfg: &Ru
                 let res = vmm.fe.set_vring_addr(0, &cd).map_err(|e| format!("{e:?}"));
                 (res, ok, "SET_VRING_ADDR")
             }
+            Op::ResetOwner => {
+                let res = vmm
+                    .fe
+                    .reset_owner()
+                    .and_then(|_| vmm.fe.set_owner())
+                    .and_then(|_| vmm.fe.get_features())
+                    .and_then(|f| {
+                        vmm.fe.set_protocol_features(vhost::vhost_user::message::VhostUserProtocolFeatures::from_bits_retain(protos))?;
+                        vmm.fe.set_features(f & !spec::VHOST_USER_F_PROTOCOL_FEATURES)
+                    })
+                    .map_err(|e| format!("{e:?}"));
+                sim.probe("owner_reset_with_a_table");
+                (res, true, "RESET_OWNER")
+            }
         };
         if res.is_ok() != expect_ok {
             viol(
@@ -291,7 +308,7 @@ fn run_v<V: VringT<GM<()>> + Clone + Send + Sync + 'static>(sim: &Sim, _cfg: &Ru
             );
         }
         let now = log.lock().unwrap().update_memory;
-        let is_table_op = !matches!(op, Op::Probe { .. });
+        let is_table_op = !matches!(op, Op::Probe { .. } | Op::ResetOwner);
         if is_table_op && expect_ok {
             // what the backend was given at its notification is the new table, not the old one
             let at_cb = log.lock().unwrap().update_memory_table.clone();
